@@ -265,7 +265,7 @@ func rd(r *rand.Rand) uint32 {
 
 func c02Getters(c *wk.Ctx, r *rand.Rand, e gen.Env, idx int64) {
 	c.Eval()
-	which := int(idx % 14)
+	which := int(idx % 15)
 	g := &gcmp{c: c, idx: idx}
 	defer func() {
 		if rec := recover(); rec != nil {
@@ -621,5 +621,35 @@ func c02Getters(c *wk.Ctx, r *rand.Rand, e gen.Env, idx int64) {
 		g.eq("OrganisationID", q.OrganisationID(), s[3:6])
 		g.eq("EtherType", q.EtherType(), uint16(s[6])<<8|uint16(s[7]))
 		g.eq("Payload", q.Payload(), s[8:])
+	case 14: // ICMP4Redirect: the layout the view documents (RFC 1256 style table after the 8 byte header)
+		n, size := r.Intn(6), []int{4, 10}[r.Intn(2)]
+		b := []byte{137, rb(r), rb(r), rb(r), byte(n), byte(size), rb(r), rb(r)} // 137: the type the view's IsValid demands
+		var want [][]byte
+		for i := 0; i < n; i++ {
+			entry := gen.RandBytes(r, size*4)
+			b = append(b, entry...)
+			if size == 4 {
+				want = append(want, entry[:4])
+			} else {
+				want = append(want, entry[:16])
+			}
+		}
+		g.view, g.in = "ICMP4Redirect", b
+		p := packet.ICMP4Redirect(b)
+		if err := p.IsValid(); err != nil {
+			g.eq("IsValid", err.Error(), "nil")
+			return
+		}
+		g.eq("Type", p.Type(), b[0])
+		g.eq("Code", p.Code(), b[1])
+		g.eq("Checksum", p.Checksum(), uint16(b[2])<<8|uint16(b[3]))
+		g.eq("NumAddrs", p.NumAddrs(), uint8(n))
+		g.eq("AddrSize", p.AddrSize(), uint8(size))
+		g.eq("Lifetime", p.Lifetime(), uint16(b[6])<<8|uint16(b[7]))
+		got := p.Addrs()
+		g.eq("len(Addrs)", len(got), n)
+		for i := 0; i < n && i < len(got); i++ {
+			g.eq(fmt.Sprintf("Addrs[%d]", min(i, 1)), []byte(got[i]), want[i])
+		}
 	}
 }
